@@ -60,6 +60,7 @@ def run(ck, tier):
 
     pairs.check_cross(ck, F, "C02.bitcopy-offset-slots", ["arrow_buffer", "arrow_data", "arrow_array", "arrow_select", "arrow_arith", "arrow_cast"], 3)
 
+    pairs.check_child_window(ck, F, "C02.child-window-from-offsets", ["arrow_cast", "arrow_select", "arrow_ord", "arrow_string", "arrow_row", "arrow_json", "arrow_ipc", "arrow_array", "arrow_arith", "arrow_data", "parquet"], 2)
     nullguard.check(ck, F, "C02.null-guarded-access", nullguard.load_table(), 35)
 
     ck.rule("C02.logical-nulls-overridden", "array types whose nulls do not live in their own validity buffer override logical_nulls and is_nullable (logical_null_count defaults to counting logical_nulls)", floor=len(LOGICAL))
